@@ -379,3 +379,37 @@ func (l *Ledger) watch(node string, inc int, payreq string, swapID string, typ i
 		l.w.enqueueLocked(&qItem{kind: qPayNotify, to: node, inc: inc, swapID: swapID, invType: typ})
 	}
 }
+
+// ResolveAllPending settles or fails every pending attempt of payer.
+func (l *Ledger) ResolveAllPending(payer string, settle bool) int {
+	l.w.mu.Lock()
+	hashes := map[string]bool{}
+	for _, a := range l.Attempts {
+		if a.Payer == payer && a.State == "pending" {
+			hashes[a.Hash] = true
+		}
+	}
+	l.w.mu.Unlock()
+	n := 0
+	for h := range hashes {
+		n += l.ResolvePending(payer, h, settle)
+	}
+	return n
+}
+
+// InvoicesOfSwap lists invoices created for a swap id (any payee).
+func (l *Ledger) InvoicesOfSwap(swapID string, typ int) []*Invoice {
+	l.w.mu.Lock()
+	defer l.w.mu.Unlock()
+	var r []*Invoice
+	for _, inv := range l.Invoices {
+		if inv.SwapID == swapID && (typ == 0 || inv.Type == typ) {
+			r = append(r, inv)
+		}
+	}
+	return r
+}
+
+// InvoiceLocked / AttemptsLocked are for online monitors (world lock held).
+func (l *Ledger) InvoiceLocked(payreq string) *Invoice         { return l.Invoices[payreq] }
+func (l *Ledger) AttemptsLocked(payer, hash string) []*Attempt { return l.attemptsLocked(payer, hash) }
